@@ -90,8 +90,10 @@ func (v *Vue) renderNodesWithContext(ctx VueContext, w io.Writer, nodes []*html.
 	for i := 0; i < len(nodes); i++ {
 		nodeCopy = append(nodeCopy, helpers.DeepCloneNode(nodes[i]))
 	}
-	// nodes that did not come from a parsed file (RenderNodes, string templates) get their ids on the private copy
-	assignOnceIDs(ctx.FromFilename, nodeCopy)
+	// nodes that did not come from a parsed file (RenderNodes, string templates) get their ids on the private
+	// copy, under a name no file has: a string rendered on a template that has a file loaded must not share
+	// ids with that file
+	assignOnceIDs("string template of "+ctx.FromFilename, nodeCopy)
 
 	if err := v.preProcessNodes(ctx, nodeCopy); err != nil {
 		return err
